@@ -2,6 +2,7 @@
 # usage: tools/mutant.sh <patch file | -R commit> <check id>...   Runs checks against a scratch copy of /repo/src with the patch applied.
 set -u
 PATCH="$1"; shift
+case "$PATCH" in -R) ;; /*) ;; *) PATCH="$PWD/$PATCH";; esac
 D=$(mktemp -d /tmp/mut_XXXXXX)
 mkdir -p "$D/repo"
 cp -r /repo/src "$D/repo/src"
